@@ -165,6 +165,19 @@ def run(prog, rep):
         rep.fail("coupled-shape", "tdfForce3D.py", "ForceTorqueTrack.__init__", guard_stmt(f, names[0]),
                  f"shapes {bad[0]}, {bad[1]}, {bad[2]} are {'accepted' if bad[3][0] == 'accept' else 'refused'}: the three arrays must have one common shape",
                  construct="ForceTorqueTrack.__init__ coupled guard")
+    # ---- the helper the event guard relies on
+    utils = prog.modules.get("tdfUtils")
+    h = utils.functions.get("is_iterable") if utils else None
+    if h is None:
+        raise AnalysisError("anchor vanished: tdfUtils.is_iterable")
+    body = [s_ for s_ in h.node.body if not (isinstance(s_, ast.Expr) and isinstance(s_.value, ast.Constant))]
+    good = len(body) == 1 and isinstance(body[0], ast.Try) and any(isinstance(x, ast.Call) and norm(x.func) == "iter" and [norm(a) for a in x.args] == h.params[:1] for b in body[0].body for x in ast.walk(b)) \
+        and any(isinstance(b, ast.Return) and norm(b.value) == "True" for b in body[0].body) \
+        and any(hd.type is not None and norm(hd.type) == "TypeError" and any(isinstance(b, ast.Return) and norm(b.value) == "False" for b in hd.body) for hd in body[0].handlers)
+    if good:
+        rep.ok("event-values", "tdfUtils.is_iterable = try iter(obj) -> True except TypeError -> False")
+    else:
+        rep.fail("event-values", "tdfUtils.py", "is_iterable", h.node, "is_iterable no longer decides by calling iter(obj): objects that merely have an __iter__ attribute (0-d arrays) or other non-iterables are let through", construct="def is_iterable")
     # ---- events
     c = prog.need_cls("Event", "tdfEvents")
     f = prog.need_method(c, "__init__")
@@ -172,7 +185,7 @@ def run(prog, rep):
     rows = []
     for tname in ("EventsDataType.singleEvent", "EventsDataType.eventSequence"):
         for d in [Desc("list", length=0), Desc("list", length=1), Desc("list", length=2), Desc("list", length=3), Desc("ndarray", (2,)), Desc("ndarray", (1,)),
-                  Desc("tuple", length=2), Desc("NoneType"), Desc("int")]:
+                  Desc("tuple", length=2), Desc("NoneType"), Desc("int"), Desc("ndarray", ())]:
             env = {"values": d, "type": ("sym", tname)}
             try:
                 r = run_ctor(prog, c, f.node, env, {"values"})
